@@ -66,6 +66,10 @@ struct Cx<'a> {
     hidden: Vec<String>,   // hidden non-terminals
     fields: Vec<&'static str>,
     start_nullable: bool,
+    /// hidden rules with a single-symbol production (`_u0: $.x`): unit reductions the generator may remove
+    units: Vec<String>,
+    /// whether the unit rule's single symbol is a terminal (usable anywhere without creating a cycle)
+    unit_is_terminal: Vec<bool>,
 }
 
 impl Cx<'_> {
@@ -120,7 +124,33 @@ impl Cx<'_> {
             _ => base,
         }
     }
+    /// a hidden unit rule, plain or under an alias, alone or inside repeat / repeat1 / optional / a nested seq
+    fn unit_use(&mut self, acyclic: bool) -> Value {
+        let k = self.rng.below(self.units.len());
+        if acyclic && !self.unit_is_terminal[k] {
+            return self.terminal();
+        }
+        let u = self.units[k].clone();
+        let base = if self.rng.chance(2, 3) {
+            let names = ["thing", "wrapped", "item"];
+            alias(sym(&u), names[self.rng.below(3)], self.rng.chance(3, 4))
+        } else {
+            sym(&u)
+        };
+        let t = self.terminal();
+        match self.rng.below(6) {
+            0 => base,
+            1 => rep(seq(vec![t, base])),
+            2 => rep1(seq(vec![base, t])),
+            3 => opt(seq(vec![t, base])),
+            4 => seq(vec![t.clone(), seq(vec![base, t])]),
+            _ => rep1(seq(vec![t, field("f", base)])),
+        }
+    }
     fn elem(&mut self, idx: usize, acyclic: bool, depth: usize) -> Value {
+        if !self.units.is_empty() && depth == 0 && self.rng.chance(1, 4) {
+            return self.unit_use(acyclic);
+        }
         let k = self.rng.below(if depth > 1 { 4 } else { 10 });
         match k {
             0 | 1 => self.terminal(),
@@ -232,7 +262,10 @@ pub fn random_cfg(rng: &mut Rng, name: &str) -> Value {
     let hidden: Vec<String> = (0..nh).map(|i| format!("_h{i}")).collect();
     let with_comment = rng.chance(1, 3);
     let start_nullable = rng.chance(1, 3);
-    let mut cx = Cx { rng, anon, tokens, visible: visible.clone(), hidden: hidden.clone(), fields: vec!["f", "g", "body"], start_nullable };
+    let n_units = if rng.chance(1, 2) { rng.range(1, 2) } else { 0 };
+    let units: Vec<String> = (0..n_units).map(|i| format!("_u{i}")).collect();
+    let unit_is_terminal: Vec<bool> = (0..n_units).map(|_| visible.len() <= 1 || rng.chance(2, 3)).collect();
+    let mut cx = Cx { rng, anon, tokens, visible: visible.clone(), hidden: hidden.clone(), fields: vec!["f", "g", "body"], start_nullable, units: units.clone(), unit_is_terminal: unit_is_terminal.clone() };
     let all: Vec<String> = visible.iter().chain(hidden.iter()).cloned().collect();
     let mut rules: Vec<(String, Value)> = Vec::new();
     for (i, name) in all.iter().enumerate() {
@@ -259,6 +292,16 @@ pub fn random_cfg(rng: &mut Rng, name: &str) -> Value {
             choice(alts)
         };
         rules.push((name.clone(), body));
+    }
+    // hidden unit rules: a single visible rule / named token / string
+    for (i, u) in units.iter().enumerate() {
+        let target = if unit_is_terminal[i] {
+            // prefer a named token (a visible leaf under the hidden unit rule)
+            if !cx.tokens.is_empty() && cx.rng.chance(2, 3) { sym(&cx.tokens[0].clone()) } else { cx.terminal() }
+        } else {
+            sym(&visible[cx.rng.range(1, visible.len() - 1)])
+        };
+        rules.push((u.clone(), target));
     }
     rules.extend(token_rules);
     let mut extras = vec![pattern("\\s")];
